@@ -18,6 +18,7 @@ ALPHA = ["{", "}", "[", "]", "(", ")", ";", ",", ":", "@", "=", ".", "?", "!", "
 INSERT = ["{", "}", "[", "]", "(", ")", ";", ",", ":", "@", "=", ".", "?", "!", "-", "++", "let", "in", "if", "then", "else", "with", "assert", "rec", "inherit", "or", "x", '"', "''", "${", "/*"]
 WRAPS = [("", ""), ("\n", ""), ("  ", "  "), ("\t\n", "\n\n"), ("\r\n ", " \r\n"), ("", "\r\n\r\n"), ("\x0c\n", "\n\x0b\n\n")]
 VALID_DOC = "{ b = 2; }\n"
+EDIT_PATHS = ["a", "a.b", "@a", "@@a", "@a.b"]  # every selector kind of the path grammar, tried on every erroneous text
 
 
 def seed_tokens(prog: g.P):
@@ -125,14 +126,15 @@ def judge(text: str, prop: str, full: bool = True):
             out.append(("test-verdict", f"nima test on {text!r}: stdout {so!r} exit {rc!r}, expected 'Fail\\n' / 1"))
         from nix_manipulator.cli.manipulations import remove_value, set_value
 
-        for name, call in (("set", lambda: set_value(parse(text), "a", "1")), ("rm", lambda: remove_value(parse(text), "a"))):
-            try:
-                res = call()
-                out.append((name + "-edits-erroneous", f"{name} on {text!r} returned {res!r}"))
-            except (KeyError, ValueError):
-                pass
-            except Exception as e:
-                out.append((name + "-wrong-exception:" + type(e).__name__, f"{name} on {text!r} raised {type(e).__name__}"))
+        for path in EDIT_PATHS:
+            for name, call in (("set", lambda: set_value(parse(text), path, "1")), ("rm", lambda: remove_value(parse(text), path))):
+                try:
+                    res = call()
+                    out.append((name + "-edits-erroneous", f"{name} {path} on {text!r} returned {res!r}"))
+                except (KeyError, ValueError):
+                    pass
+                except Exception as e:
+                    out.append((name + "-wrong-exception:" + type(e).__name__, f"{name} {path} on {text!r} raised {type(e).__name__}"))
         d = parse(VALID_DOC)
         try:
             res = set_value(d, "a", text)
